@@ -19,6 +19,9 @@ pub struct SimBuf {
     pub advances: Vec<usize>,
     pub chunk_calls: usize,
     pub protocol_error: Option<String>,
+    /// behave like a growable sink: `remaining_mut()` is usize::MAX (the arena is far larger than
+    /// anything a correct encoder writes; running out of it is reported, not looped on)
+    pub report_unbounded: bool,
 }
 
 impl SimBuf {
@@ -28,7 +31,7 @@ impl SimBuf {
         arena.resize(prior.len() + capacity_after_prior, POISON);
         let chunks: Vec<usize> = if chunks.is_empty() { vec![usize::MAX / 2] } else { chunks.iter().map(|c| (*c).max(1)).collect() };
         let first = chunks[0];
-        SimBuf { arena, prior: prior.len(), pos: prior.len(), chunks, ci: 0, left_in_chunk: first, advances: Vec::new(), chunk_calls: 0, protocol_error: None }
+        SimBuf { arena, prior: prior.len(), pos: prior.len(), chunks, ci: 0, left_in_chunk: first, advances: Vec::new(), chunk_calls: 0, protocol_error: None, report_unbounded: false }
     }
     pub fn prior(&self) -> &[u8] {
         &self.arena[..self.prior]
@@ -55,6 +58,12 @@ impl SimBuf {
 
 unsafe impl BufMut for SimBuf {
     fn remaining_mut(&self) -> usize {
+        if self.report_unbounded {
+            if self.arena.len() == self.pos {
+                panic!("simulated growable sink exhausted: the encoder wrote more than twice encoded_len() + 70000 bytes");
+            }
+            return usize::MAX;
+        }
         self.arena.len() - self.pos
     }
 
